@@ -158,7 +158,10 @@ Lemma to_field_eq hook i om obj atys attrs ds :
             | _ => Ok (attrs, diag_append ds (WriteConv, path))
             end
         | CustomKind, _ =>
-            do g <- gget_via obj (fi_via i) (fi_name i);
+            do g <- (match fi_parent i with
+                     | Some (_, pzero) => do z <- gfield pzero (fi_name i); read_source i z obj
+                     | None => gget_via obj (fi_via i) (fi_name i)
+                     end);
             Ok (update s (hook (fi_suffix i) g t cur) attrs, ds)
         | _, None => Panic
         end
